@@ -45,15 +45,21 @@ type cMatch []struct {
 	vm  xVM
 }
 type cStep struct {
-	kind      string
-	pairs     []struct{ dst string; t cTmpl }
+	kind  string
+	pairs []struct {
+		dst string
+		t   cTmpl
+	}
 	keys      []string
 	key, dest string
 	mapping   [][2]string
 	dflt      string
 	match     cMatch
 	steps     []cStep
-	cases     []struct{ match cMatch; steps []cStep }
+	cases     []struct {
+		match cMatch
+		steps []cStep
+	}
 	rate      int
 	label     string
 	pattern   string
@@ -769,7 +775,9 @@ func (c *cfgComp) Generate(rng *rand.Rand, n int, emit func(Case)) {
 	if err := yaml.Unmarshal(sampleConfigText, &root); err != nil {
 		return
 	}
-	fileOp := func(desc, text string) Op { return Op{Name: "cfg file", Strs: []string{"#" + strings.ReplaceAll(desc, " ", "_")}, Meta: text} }
+	fileOp := func(desc, text string) Op {
+		return Op{Name: "cfg file", Strs: []string{"#" + strings.ReplaceAll(desc, " ", "_")}, Meta: text}
+	}
 	orig, _ := yaml.Marshal(&root)
 	emit(Case{Ops: []Op{fileOp("unmodified sample", string(orig))}, Tag: "file-valid"})
 	var cfgDoc struct {
